@@ -313,6 +313,12 @@ def rule_part(run):
             if isinstance(lst, ast.List) and len(lst.elts) == 1 and isinstance(mult, ast.Name):
                 r = compare(lst.elts[0], '%s.thickness / %s' % (lay, mult.id))
                 good = {'equal': True, 'different': False}.get(r)
+            elif isinstance(lst, ast.List) and len(lst.elts) == 1 and isinstance(lst.elts[0], ast.BinOp) and \
+                    isinstance(lst.elts[0].op, ast.Div) and isinstance(lst.elts[0].right, ast.Name):
+                # [t / f] * M with M an expression: the pieces sum to t only if M == f
+                d = lst.elts[0].right.id
+                r = compare(mult, d)
+                good = {'equal': True, 'different': False}.get(r)
         if good is None: run.unknown(key, 'selected-layer branch not recognised: %s' % norm(br), where=fi.where(br))
         elif good: run.ok(key, where=fi.where(br))
         else: run.violated(key, 'a refined layer of thickness t is replaced by `%s`, whose sum is not t: rock volume changes'
